@@ -117,7 +117,7 @@ var undecided = map[string][]string{
 	"C09": {"coverage of the subject lines beyond the sampled stand-in, cutting at intersections, open ends at maxima and horizontals, emission", "open paths with 180-degree spikes along a horizontal (known finding F37)"},
 	"C07": {"BooleanOpPathsD / PolyTreeD / InflatePathsD composition with their 64-bit counterparts (heap-level engines)", "ScaleRectD rounding (known finding F8)", "NewClipperD(0) (known finding F17)"},
 	"C08": {"the NonZero union of the quads (C01) and commutativity of the resulting region"},
-	"C13": {"region-level translation/scaling invariance of whole operations", "advertised range 2^61 for CrossProduct, dotProduct64, getSegmentIntersectPt (known finding F13)"},
+	"C13": {"region-level translation/scaling invariance of whole operations beyond the sampled stand-in", "accuracy of the floating-point branch of CrossProduct, dotProduct64, getSegmentIntersectPt for factors of 2^31 and more (no wrap-around is proved, exactness is not claimed)"},
 	"C03": {"termination and nil-safety of the sweep's list walks, Execute's success flag, the rectangle clipper's edge post-pass, offset join constructors (not under contract)"},
 	"C02": {"winding 0/1 beyond the sampled stand-in; orientation signs, >= 3 vertices and first != last (need cleanCollinear's ring postcondition and the sweep)", "reverse option applied consistently (call-site argument of buildPath)"},
 	"C04": {"owner correctness, containment within the parent, IsHole <=> negative orientation, same polygons as the flat result: beyond the sampled stand-in", "polygons that touch another polygon of the solution or are slivers (known finding F38); zero-area polygons (F39)"},
